@@ -28,6 +28,7 @@ use crate::parser::position::Position;
 use crate::parser::vfs::{to_project_relative, Vfs};
 use crate::parser::{parse_toplevel_items, parse_toplevel_items_from_span, ParseError};
 use crate::to_abs_path;
+use crate::values::Value;
 
 type RequestId = usize;
 
@@ -623,7 +624,7 @@ fn handle_run_request(
                 Err(CommandError::Action(EvalAction::Skip)) => {
                     let stack_frame = env.stack.0.last_mut().unwrap();
 
-                    if stack_frame.exprs_to_eval.pop().is_none() {
+                    let Some((_, skipped_expr)) = stack_frame.exprs_to_eval.pop() else {
                         return Response {
                             kind: ResponseKind::RunCommand {
                                 message: "Nothing to skip: no evaluation is pending.".to_owned(),
@@ -632,6 +633,12 @@ fn handle_run_request(
                             position: None,
                             id,
                         };
+                    };
+
+                    // The expressions around the skipped one still
+                    // expect its value, so give it the value Unit.
+                    if skipped_expr.value_is_used {
+                        stack_frame.evalled_values.push(Value::unit());
                     }
 
                     eval_to_response(env, session)
